@@ -67,41 +67,45 @@ def small_model(constraints, axioms, hints, timeout_ms=8000):
     return None
 
 
-def solve_one(ob, axioms, timeout_ms=None, want_model=True, seed=0, hints=()):
+def solve_one(ob, axioms, timeout_ms=None, want_model=True, seed=0, hints=(), fast=False):
+    """Stages: z3 (short) -> cvc5 (short) -> z3 after explicit skolemisation -> cvc5 (long).  The first decisive
+    answer wins; sat answers without a z3 model object are re-asked to z3 for the model only."""
     timeout_ms = timeout_ms or QUICK_MS
     t0 = time.time()
-    s = _solver(ob, axioms, min(timeout_ms, FIRST_MS), seed)
+    s = _solver(ob, axioms, min(timeout_ms, 2500 if fast else FIRST_MS), seed)
     r = s.check()
     backend = 'z3'
     model = None
-    if r == z3.unknown:
-        # second attempt: explicit skolemisation (nnf) first -- goal-side quantifiers become constants and the
-        # bit-vector obligations are then decided by bit-blasting instead of the quantifier engine
+    if r == z3.sat and want_model:
+        model = s.model()
+    smt2 = None
+    if r == z3.unknown and not fast:
+        smt2 = s.to_smt2()
+        r2 = _cvc5(smt2, 12)
+        r = {'sat': z3.sat, 'unsat': z3.unsat}.get(r2, z3.unknown)
+        backend = 'cvc5'
+    if r == z3.unknown and not fast:
+        # explicit skolemisation (nnf) first: goal-side quantifiers become constants, bit-vector obligations are
+        # then decided by bit-blasting instead of the quantifier engine
         s1 = z3.Then('simplify', 'nnf', 'smt').solver()
-        s1.set('timeout', timeout_ms * 3)
+        s1.set('timeout', timeout_ms * 2)
         for f in s.assertions():
             s1.add(f)
         r = s1.check()
         backend = 'z3-nnf'
         if r == z3.sat and want_model:
             model = s1.model()
-    if r == z3.unknown:
-        r2 = _cvc5(s.to_smt2(), max(5, timeout_ms // 1000))
-        backend = 'cvc5'
+    if r == z3.unknown and not fast:
+        r2 = _cvc5(smt2, max(30, timeout_ms // 100))
         r = {'sat': z3.sat, 'unsat': z3.unsat}.get(r2, z3.unknown)
-        if r == z3.sat:
-            # try z3 once more with a different seed to obtain a model object
+        backend = 'cvc5'
+    if r == z3.sat and want_model and ob.kind != 'cover':
+        if model is None:
             s2 = _solver(ob, axioms, timeout_ms, seed + 7)
             if s2.check() == z3.sat:
                 model = s2.model()
-    elif r == z3.sat and want_model:
-        if model is None:
-            try:
-                model = s.model()
-            except z3.Z3Exception:
-                model = None
         # prefer a SMALL counter-model (input sizes bounded), so that it can be replayed quickly
-        if hints and ob.kind != 'cover':
+        if hints:
             m2 = small_model(list(ob.hyps) + [z3.Not(ob.goal)], axioms, hints)
             if m2 is not None:
                 model = m2
@@ -113,19 +117,23 @@ def solve_one(ob, axioms, timeout_ms=None, want_model=True, seed=0, hints=()):
     return status, model, secs, backend
 
 
+_FAST = False
+
+
 def _work(i):
     ob = _OBLS[i]
-    status, model, secs, backend = solve_one(ob, _AX, want_model=False)
+    status, model, secs, backend = solve_one(ob, _AX, want_model=False, fast=_FAST)
     return i, status, secs, backend
 
 
-def solve_all(obls, axioms, jobs=None, timeout_ms=None, hints=()):
+def solve_all(obls, axioms, jobs=None, timeout_ms=None, hints=(), fast=False):
     """Discharge every obligation; fills ob.status / ob.model / ob.secs / ob.backend."""
-    global _OBLS, _AX
+    global _OBLS, _AX, _FAST
+    _FAST = fast
     jobs = jobs or int(os.environ.get('VERIF_JOBS', '0')) or min(16, os.cpu_count() or 1)
     if len(obls) < 24 or jobs <= 1:
         for ob in obls:
-            ob.status, ob.model, ob.secs, ob.backend = solve_one(ob, axioms, timeout_ms, hints=hints)
+            ob.status, ob.model, ob.secs, ob.backend = solve_one(ob, axioms, timeout_ms, hints=hints, fast=fast)
         return
     _OBLS, _AX = obls, axioms
     ctx = mp.get_context('fork')
@@ -136,7 +144,7 @@ def solve_all(obls, axioms, jobs=None, timeout_ms=None, hints=()):
     _OBLS = _AX = None
     for ob in obls:
         if ob.status == 'failed' and ob.kind != 'cover':
-            st, model, secs, backend = solve_one(ob, axioms, timeout_ms, hints=hints)
+            st, model, secs, backend = solve_one(ob, axioms, timeout_ms, hints=hints, fast=fast)
             ob.model = model
             if st != 'failed':
                 # never turn a disagreement into a verdict
